@@ -5,6 +5,7 @@ from ..common import seed
 ASSUMPTIONS = [
     "idempotence is decided for all data on the bounded family F01; termination of the rule system on all programs is outside the claim "
     "(a non-converging program in the family surfaces as a planning failure)",
+    "by-product (concrete, not solver-based): plan and task names of seven optimised queries are identical in subprocesses with different PYTHONHASHSEED values",
     "convergence drivers (Expr.simplify / rewrite / lower_completely / fusion loop) are model-checked on stub nodes with symbolic rewrite sequences (engine K)",
 ]
 
@@ -17,6 +18,10 @@ def run(tier, only=None):
     results, info = pfam.run(progs, prun.check_idempotent, only)
     krs, kinfo = kcollect.run("C19", tier, only)
     results += krs
+    if not only or "hashseed" in only:
+        from .. import hashseed
+
+        results += hashseed.run(tier)
     info.update(kinfo)
     info["states"] = max(1, len(results))
     info["transitions"] = max(1, sum(r.queries for r in results))
